@@ -8,8 +8,9 @@ package database
 //   (3) one reorganisation view: detach b, attach sibling b'  ==  attach(S, b')
 // observed through the real getUtxo / getContract. The code under test is the
 // real state.UtxoViewpoint / state.ContractViewpoint, the real
-// getTransactionsUtxo / saveUtxoView / saveContractView / deleteContractView,
-// and the real MemDB backend with its batch.
+// getTransactionsUtxo, every commit through the real Store.SaveChainStatus
+// (saveUtxoView, deleteContractView, saveContractView in its own order, one
+// batch), and the real MemDB backend with its batch.
 
 //verif:property C10 C13
 //verif:bound utxo: pre-state of 2 pre-existing outputs, each absent or {type in 0..2, creation height < block height, spent}; block height in [1, 2^62); block = coinbase tx (1 output) + 1..2 ordinary txs (inputs x outputs per ordinary tx; quick: 1 tx of 1x1, 2x1 or 1x2, and 2 txs of 1x1; thorough adds 1 tx of 2x2 and 2 txs of 1x2; 2 txs of 2x1 would need more than 2 pre-existing outputs to attach and are not covered); every input spends a pre-existing output or an output of an earlier ordinary tx of the block (double spends included; by symmetry of the two pre-existing outputs the very first input spends number 0); every output is original / vote / retirement with arbitrary amount (0 included)
@@ -19,10 +20,11 @@ package database
 //verif:assume persisted pre-state is one saveUtxoView can have written: a spent entry is persisted only for coinbase outputs; creation heights are below the height of the block
 //verif:assume the output entry a transaction carries for a prevout has the kind of the output that was created (output ids commit to the entry kind): vote utxo <-> *bc.VoteOutput, normal and coinbase utxo <-> *bc.OriginalOutput
 //verif:assume solver side: proto.Marshal / proto.Unmarshal of storage.UtxoEntry replaced by a 13-byte handle codec (type, height, spent); the native replay uses real protobuf
-//verif:assume sha3 of the contract body is an uninterpreted collision-free function
-//verif:outside Chain.reorganizeChain / calcReorganizeChain as a whole, Store.SaveChainStatus (json of the chain status, main-chain index), setState write ordering, GoLevelDB, acceptance of a probe block through Chain.ProcessBlock (only the utxo spend rule applySpendUtxo is probed)
+//verif:assume sha3 of the contract body and the block header hash are uninterpreted collision-free functions; solver side: json.Marshal of the chain status record (written by SaveChainStatus, never read here) is an opaque constant
+//verif:outside Chain.reorganizeChain / calcReorganizeChain as a whole, the chain status record and main-chain index part of Store.SaveChainStatus (no main-chain headers are passed; see C21), setState write ordering, GoLevelDB, acceptance of a probe block through Chain.ProcessBlock (only the utxo spend rule applySpendUtxo is probed)
 //verif:override github.com/golang/protobuf/proto.Marshal -> verifC10Marshal
 //verif:override github.com/golang/protobuf/proto.Unmarshal -> verifC10Unmarshal
+//verif:override encoding/json.Marshal -> verifC10StatusJSON
 //verif:obligation fn=VerifC10RoundTrip args=1,1,1,-1 validate=12
 //verif:obligation fn=VerifC10RoundTrip args=1,2,1,-1;1,1,2,0;1,1,2,1;1,1,2,2;2,1,1,0;2,1,1,1;2,1,1,2
 //verif:obligation fn=VerifC10RoundTrip args=1,2,2,0;1,2,2,1;1,2,2,2;2,1,2,0;2,1,2,1;2,1,2,2 tier=thorough secs=6000 paths=2000000
@@ -45,6 +47,14 @@ import (
 	"github.com/bytom/bytom/protocol/bc/types"
 	"github.com/bytom/bytom/protocol/state"
 )
+
+// the chain status record SaveChainStatus writes next to the views is not read here
+func verifC10StatusJSON(v interface{}) ([]byte, error) {
+	if _, ok := v.(state.BlockStoreState); !ok {
+		panic("verif: json.Marshal stub: unexpected type")
+	}
+	return []byte{0xc3}, nil
+}
 
 // ---- handle codec for storage.UtxoEntry (solver side only) ----------------
 
@@ -246,12 +256,19 @@ func verifC10Detach(db dbm.DB, view *state.UtxoViewpoint, b *bc.Block) error {
 	return view.DetachBlock(b)
 }
 
-func verifC10Commit(db dbm.DB, view *state.UtxoViewpoint) {
-	batch := db.NewBatch()
-	if err := saveUtxoView(batch, view); err != nil {
-		panic("verif: saveUtxoView failed")
+// verifC10Status commits a utxo view and a contract view the way the chain
+// does: through the real Store.SaveChainStatus (one batch: utxo view, contract
+// deletions, contract registrations, chain status record).
+func verifC10Status(db dbm.DB, view *state.UtxoViewpoint, contracts *state.ContractViewpoint) {
+	tip := &types.BlockHeader{Version: 1, Height: 1}
+	fin := bc.Hash{V0: 0xf1}
+	if err := NewStore(db).SaveChainStatus(tip, nil, view, contracts, 0, &fin); err != nil {
+		panic("verif: SaveChainStatus failed")
 	}
-	batch.Write()
+}
+
+func verifC10Commit(db dbm.DB, view *state.UtxoViewpoint) {
+	verifC10Status(db, view, state.NewContractViewpoint())
 }
 
 // verifC10Same asserts that two persisted records of one output are the same
@@ -494,15 +511,7 @@ func verifC10ContractHash(contract []byte) (h [32]byte) {
 }
 
 func verifC10CommitContracts(db dbm.DB, view *state.ContractViewpoint) {
-	// the order of Store.SaveChainStatus
-	batch := db.NewBatch()
-	if err := deleteContractView(db, batch, view); err != nil {
-		panic("verif: deleteContractView failed")
-	}
-	if err := saveContractView(db, batch, view); err != nil {
-		panic("verif: saveContractView failed")
-	}
-	batch.Write()
+	verifC10Status(db, state.NewUtxoViewpoint(), view)
 }
 
 // verifC10RegBlock: two transactions, each registering X, Y or nothing
